@@ -260,6 +260,11 @@ def cdsFlags (c : CDS) (table : Int) : RT (Nat × Bool × Bool) := do
 
 def bt (s : String) : Option Str := some s.toList
 
+/-- MODEL SWITCH for F-C17c.  `false` = the code as it is: the RNA features of a non-coding gene read
+    `transcript.chromosome_location` (the blocks as given, adjacent exons stay separate rows); `true` = the proposed
+    repair: they read `transcript._location`, the blocks `TblGene` merged (as MRNATblFeature does). -/
+def rnaRowsMerged : Bool := false
+
 /-- the transcript-level feature(s) of one transcript inside `TblGene.__init__`'s second loop -/
 def txFeatures (g : Gene) (table : Int) (pseudo : Bool) (t : Tx) (merged : List Blk) (mc : Option CDS) :
     RT (List Skel) :=
@@ -272,7 +277,7 @@ def txFeatures (g : Gene) (table : Int) (pseudo : Bool) (t : Tx) (merged : List 
       let mrnaF : Skel := ⟨"mRNA".toList, t.strand, merged, si, ei, pseudo, some cs⟩
       pure [mrnaF, cdsF]
   else do
-    let bl ← liftR (chromosomeBlocks t)
+    let bl ← (if rnaRowsMerged then pure merged else liftR (chromosomeBlocks t))
     if g.gtype = bt "rRNA" then pure [⟨"rRNA".toList, t.strand, bl, false, false, false, none⟩]
     else if g.gtype = bt "tRNA" then pure [⟨"tRNA".toList, t.strand, bl, false, false, false, none⟩]
     -- `ncRNA_class` is `transcript_type.name`, or "other" without a type (/repo ec7cc09; before that repair a
@@ -312,9 +317,9 @@ def tblGene (g : Gene) (genome : Option Str) (table : Int) : RT (List Skel) := d
 
 /-! ### `collection_to_tbl` -/
 
-/-- MODEL SWITCH for F-C17a.  `false` = the code as it is (`if random_seed:` — Python truthiness, seed 0 counts as
-    "no seed"); `true` = the proposed repair `if random_seed is not None:`.  Flip when the fix lands in /repo. -/
-def seedRepaired : Bool := false
+/-- MODEL SWITCH for F-C17a.  `true` = the code as it is since /repo 2007fc1 (`if random_seed is not None:`);
+    `false` = the pinned code (`if random_seed:` — Python truthiness, seed 0 counted as "no seed"). -/
+def seedRepaired : Bool := true
 
 /-- is `random.seed(random_seed)` executed? -/
 def seedApplied (repaired : Bool) (seed : Option Int) : Bool :=
